@@ -1,0 +1,39 @@
+//go:build verif
+
+package app
+
+import (
+	"sync"
+
+	"github.com/cosmos/cosmos-sdk/crypto/keyring"
+)
+
+// verif hook H1: lets a deterministic-simulation harness inject an in-memory
+// keyring into a node's vote-extension handler instead of the viper-configured
+// file keyring. Compiled only with -tags verif; the shipped build has an empty
+// verifRegisterVoteExtHandler.
+
+var (
+	verifMu       sync.Mutex
+	verifVoteExts = map[*App]*VoteExtHandler{}
+)
+
+func verifRegisterVoteExtHandler(app *App, h *VoteExtHandler) {
+	verifMu.Lock()
+	defer verifMu.Unlock()
+	verifVoteExts[app] = h
+}
+
+// VerifSetVoteExtKeyring sets the keyring used by ExtendVote for this app instance.
+func VerifSetVoteExtKeyring(app *App, kr keyring.Keyring) {
+	verifMu.Lock()
+	defer verifMu.Unlock()
+	verifVoteExts[app].kr = kr
+}
+
+// VerifForget drops the registry entry of an app instance that is being discarded.
+func VerifForget(app *App) {
+	verifMu.Lock()
+	defer verifMu.Unlock()
+	delete(verifVoteExts, app)
+}
